@@ -128,6 +128,10 @@ Proof.
     + eexists _, _. split; [reflexivity|]. split; [intros m E; injection E as <-; reflexivity|intros _; discriminate].
   - (* SNamed *) intros id s IH Hs v Hv. cbn [enc wfs wfv] in *. destruct (IH Hs v Hv) as (b & t & E & H1 & H2).
     exists b, t. split; [exact E|]. split; [exact H1|exact H2].
+  - (* SArrOpt *) intros fs _ o _ _ v Hv. destruct v as [| | | | | | | | | |i v]; try discriminate.
+    destruct i as [|[|i]]; destruct v as [| | | | | |l| | | |]; try discriminate; cbn [enc].
+    + apply (fb_head (SArrOpt fs o) 4); [reflexivity|lia].
+    + destruct l as [|x l]; [discriminate|]. apply (fb_head (SArrOpt fs o) 4); [reflexivity|lia].
   - (* ANil *) intros i l H. discriminate.
   - (* ACons *) intros idx fs _ r IH i l H. cbn [wfv_vl enc_vl] in *. destruct i as [|i'].
     + destruct (encode_head_major 4 (1 + slen fs)) as (b & t & -> & Hb). eexists _, _. split; [reflexivity|exact Hb].
@@ -395,6 +399,15 @@ Proof.
         exists b0, (t0 ++ c). split; [reflexivity|]. intros ->. discriminate.
       * rewrite app_length. cbn [length]. lia.
   - (* SNamed *) intros id s IH Hs v rest Hv. cbn [enc dec wfs wfv] in *. apply IH; assumption.
+  - (* SArrOpt *) intros fs IHfs o IHo Hs v rest Hv. cbn [wfs] in Hs. split_ands.
+    destruct v as [| | | | | | | | | |i v]; try discriminate.
+    destruct i as [|[|i]]; destruct v as [| | | | | |l| | | |]; try discriminate; cbn [enc dec wfv] in *.
+    + rewrite <- app_assoc. rewrite dec_head_m_enc by lia. cbn [bind]. rewrite N.eqb_refl.
+      rewrite IHfs by assumption. reflexivity.
+    + destruct l as [|x l]; [discriminate|]. split_ands.
+      rewrite <- !app_assoc. rewrite dec_head_m_enc by lia. cbn [bind].
+      destruct (1 + slen fs =? slen fs) eqn:E; [lia|]. rewrite N.eqb_refl.
+      rewrite IHfs by assumption. cbn [bind]. rewrite IHo by assumption. reflexivity.
   - (* SNil *) intros _ l rest Hv. destruct l; [reflexivity|discriminate].
   - (* SCons *) intros s IHs r IHr Hw l rest Hv. cbn [wfs_sl] in Hw. split_and Hw.
     destruct l as [|v t]; [discriminate|]. cbn [wfv_sl enc_sl dec_sl] in *. split_and Hv.
